@@ -4,9 +4,9 @@
 Reference model: bijective base-26 is *enumeration order* of itertools.product over A..Z per
 length (no arithmetic shared with the implementation); a label is
   \\$?[A-Za-z]+\\$?[1-9][0-9]*   (ASCII, whole string).
-Not demanded (R1): rows "0" or with leading zeros ("A0", "A01") - the statement defines the
-round trip only for positive rows without leading zeros and we do not require such strings to
-be rejected either."""
+Rows "0" or with leading zeros ("A0", "A01") are not labels (the statement: a positive row number
+without leading zeros), so they decompose to nothing like every other non-label.  (They were first
+left undemanded; the library decomposed 'A0' to row index -1, which was repaired - see DESIGN 11.)"""
 import itertools
 import re
 
@@ -25,7 +25,7 @@ BOUNDS = {
                 '{A,Z,AA,XFD,ZZZZ} x every row 1..1048576 x 4 patterns; strings of length <=5',
 }
 ASSUMPTIONS = ['label grammar = optional $, ASCII letters, optional $, positive decimal row without '
-               'leading zeros; rows "0"/leading zeros are outside both the label and non-label sets',
+               'leading zeros; rows "0"/leading zeros make a string a non-label',
                'column index reference = enumeration order of itertools.product("A".."Z") by length']
 
 
@@ -271,10 +271,10 @@ class NonLabels(Sub):
                     or rowidx != int(m.group(4)) - 1:
                 return fail('label %r decomposes to %r and recomposes to %r' % (s, got, back),
                             s.upper(), repr(back), case=narrow)
-        elif SLOPPY.match(s):
-            env.note('zero-row (not demanded)')
         else:
-            env.note('non-label')
+            # rows "0" and rows with leading zeros ("A0", "A01") are not positive row numbers without leading zeros:
+            # such strings are not cell labels either
+            env.note('zero-row: non-label' if SLOPPY.match(s) else 'non-label')
             if got is None or len(got) != 0:
                 return fail('extract_label(%r) = %r for a string that is not a cell label; '
                             'expected nothing' % (s, got), [], repr(got), case=narrow)
